@@ -211,6 +211,60 @@ func genMessage(r *prng.Rng, ks []kind) []byte {
 	return msg
 }
 
+// lengthLadder: one length-delimited field at the END of the input (and once more followed by other bytes), read by every
+// reader that trusts a declared length — string, bytes, DecodeNested, the eleven packed readers, Skip — with the declared
+// length stepping across what is really there (payload-1 … payload+2, i.e. also "too long by exactly the size of the
+// prefix"), written minimally and padded, and with the extreme values of the 64-bit range: every 2^63-1-k and 2^64-1-k for
+// small k (where cursor+length wraps around), 2^31±, 2^32±.
+func lengthLadder(c *fw.Ctx) {
+	readers := []decOp{{name: "string"}, {name: "bytes"}, {name: "nested", a: 1}, {name: "nested", a: 0}, {name: "skip", a: 0, b: 2},
+		{name: "pbool"}, {name: "pint32"}, {name: "pint64"}, {name: "puint32"}, {name: "puint64"}, {name: "psint32"}, {name: "psint64"},
+		{name: "pfixed32"}, {name: "pfixed64"}, {name: "pfloat32"}, {name: "pfloat64"}}
+	var extremes []uint64
+	for k := uint64(0); k <= 12; k++ {
+		extremes = append(extremes, 1<<63-1-k, ^uint64(0)-k)
+	}
+	extremes = append(extremes, 1<<63, 1<<63+1, 1<<62, 1<<31-2, 1<<31-1, 1<<31, 1<<31+1, 1<<32-1, 1<<32, 1<<32+1)
+	n := 0
+	run := func(rd decOp, tag int, l uint64, payload []byte, pad bool, trail []byte) {
+		data := protowire.AppendTag(nil, protowire.Number(tag), protowire.BytesType)
+		lp := protowire.AppendVarint(nil, l)
+		if pad && len(lp) < 10 {
+			lp[len(lp)-1] |= 0x80
+			lp = append(lp, 0)
+		}
+		data = append(append(append(data, lp...), payload...), trail...)
+		if rd.name == "skip" {
+			rd.a = int64(tag)
+		}
+		n++
+		runAndCheck(c, "length-ladder", n%2 == 0, data, []decOp{{name: "tag"}, rd, {name: "offset"}, {name: "more"}})
+	}
+	for _, rd := range readers {
+		for _, pl := range []int{0, 1, 2, 3, 4, 5, 7, 8, 9, 12, 16, 126, 127, 128, 129} {
+			payload := make([]byte, pl)
+			for i := range payload {
+				payload[i] = byte(c.Rng.Intn(2)) // valid one-byte varints / bools, and zero bits for the fixed-width readers
+			}
+			for d := -1; d <= 2; d++ {
+				if pl+d < 0 {
+					continue
+				}
+				run(rd, []int{1, 16, 1 << 21}[n%3], uint64(pl+d), payload, false, nil)
+				if d >= 0 && pl < 20 {
+					run(rd, 2, uint64(pl+d), payload, true, nil)
+					run(rd, 3, uint64(pl+d), payload, false, []byte{0x08, 0x01})
+				}
+			}
+		}
+		for _, pl := range []int{0, 3, 8} {
+			for _, l := range extremes {
+				run(rd, []int{1, 16}[n%2], l, c.Rng.Bytes(pl), false, nil)
+			}
+		}
+	}
+}
+
 func genOps(r *prng.Rng, n int) []decOp {
 	var ops []decOp
 	for i := 0; i < n; i++ {
@@ -246,12 +300,16 @@ func genOps(r *prng.Rng, n int) []decOp {
 func walkOps(r *prng.Rng, n int) []decOp {
 	var ops []decOp
 	byWT := [][]string{{"bool", "uint32", "uint64", "int32", "int64", "sint32", "sint64"}, {"fixed64", "float64"},
-		{"string", "bytes", "pbool", "pint32", "pint64", "puint32", "puint64", "psint32", "psint64", "pfixed32", "pfixed64", "pfloat32", "pfloat64"},
+		{"string", "bytes", "nested", "pbool", "pint32", "pint64", "puint32", "puint64", "psint32", "psint64", "pfixed32", "pfixed64", "pfloat32", "pfloat64"},
 		{"fixed32", "float32"}}
 	for i := 0; i < n; i++ {
 		ops = append(ops, decOp{name: "tag"})
 		g := byWT[r.Intn(4)]
-		ops = append(ops, decOp{name: g[r.Intn(len(g))]})
+		op := decOp{name: g[r.Intn(len(g))]}
+		if op.name == "nested" {
+			op.a = int64(r.Intn(2))
+		}
+		ops = append(ops, op)
 	}
 	return ops
 }
@@ -264,6 +322,8 @@ func runC03(c *fw.Ctx) int {
 		L, n = 4, 200000
 	}
 	exhaustive(c, L)
+	c.FlushModel()
+	lengthLadder(c)
 	c.FlushModel()
 	ks := append(scalarKinds(), packedKinds()...)
 	for i := 0; i < n; i++ {
@@ -288,7 +348,7 @@ func runC03(c *fw.Ctx) int {
 		c.LeanChecker("C03")
 	}
 	return c.Finish(
-		fmt.Sprintf("exhaustive: every string of length <= %d over the wire-significant alphabet %s, each of the 25 Decode*/DecodePacked* methods, DecodeNested (succeeding and failing nested unmarshaler) and Skip with 12 argument pairs, at every offset, safe and fast mode; sequences: mostly-valid messages of reference-encoded fields damaged by truncation / bit flips / continuation-bit inflation / huge declared lengths / pure junk, driven by client-like tag+reader walks and by random op sequences (<= 12 ops incl. Seek with extreme offsets, Reset, mode switches); non-trivial = distinct non-empty input on which some calls succeed and some fail", L, hexs(alphabet)),
+		fmt.Sprintf("length-ladder: one length-delimited field at the end of the input (also padded prefix / trailing bytes) read by string, bytes, DecodeNested, the 11 packed readers and Skip, declared length = payload-1..payload+2 for payloads of 0..129 bytes and the extremes 2^63-1-k, 2^64-1-k (k<=12), 2^31+-, 2^32+-; exhaustive: every string of length <= %d over the wire-significant alphabet %s, each of the 25 Decode*/DecodePacked* methods, DecodeNested (succeeding and failing nested unmarshaler) and Skip with 12 argument pairs, at every offset, safe and fast mode; sequences: mostly-valid messages of reference-encoded fields damaged by truncation / bit flips / continuation-bit inflation / huge declared lengths / pure junk, driven by client-like tag+reader walks and by random op sequences (<= 12 ops incl. Seek with extreme offsets, Reset, mode switches); non-trivial = distinct non-empty input on which some calls succeed and some fail", L, hexs(alphabet)),
 		append(trustedCommon, "allocation: the model counts requested cells; on the implementation cap() of the returned slice is observed (heap behaviour of the Go runtime is not modelled)"),
 		[]string{"after a failed call the cursor is only required to be in [0,len]; the harness re-synchronises the model's cursor to the implementation's (theorem holds for every resync position)",
 			"clause 'advances by exactly the item's encoded length' is checked by the oracle against protowire on every successful call; in Lean it is proved for conforming items (C01/C02) — for arbitrary bytes only the weaker in-range/advance statement is proved"})
